@@ -17,7 +17,7 @@ import (
 var c18Stores = []string{"nstruct", "rstruct", "nstruct", "rstruct", "rmap", "nmap", "ctl"}
 
 func c18Gen(r *kit.Rng) *histScenario {
-	sk := c18Stores[r.Intn(len(c18Stores))]
+	sk := store.Variant(r, c18Stores[r.Intn(len(c18Stores))])
 	st, _ := store.New(sk)
 	caps := st.Caps()
 	caps.Choices = false
